@@ -21,6 +21,15 @@ bundle are forced into chosen completion orders, readers returning None exercise
 collect.  Thorough tier: the same laws on process pools (map / imap / pass-through imap = what icollect does,
 on processes / icollect itself, which pins threads) with events and gates shared through a
 multiprocessing.Manager.
+
+Extension 2: (e) TYPE and length of the content of a bundle task -- the harness records whether the function (or the
+caller of collect / icollect) got a bare content or a list; Coq compares the observation with the model's list
+(`bundle_arg_codes`: a bare content instead of the list is code 2, theorems bundle_singleton_arg /
+bundle_arg_is_member_list / observed_arg_agrees_iff); directed streams with bundles of ONE file ([[0,1],[2,3],[4]],
+bundle=1, files=[[f0],[f1,f2]], find(bundle=n) inside the call).  (f) compressed files with the same base name in
+different directories (layout "gz", see the driver) under forced completion orders in which a later task
+decompresses, reads and finishes while an earlier one is still inside its reader: every content must be the content
+of the task's OWN file (`own` pairs, theorem task_results_independent) and no task may raise.
 """
 import itertools
 import json
@@ -76,10 +85,11 @@ def mode_of(api):
 
 def mk_case(cid, api, nfiles, stream, w, select="all", period=None, on_content=False, pass_info=False,
             return_info=False, e2w=False, rfail=(), fnone=(), fraise=(), pool="thread", extra_args=False,
-            as_generator=False, pass_max_workers=True, rnone=(), passthrough=False, inner_order=None):
+            as_generator=False, pass_max_workers=True, rnone=(), passthrough=False, inner_order=None, layout=None,
+            bundle=None):
     if api in ("icollect", "collect") or passthrough:
         on_content, pass_info, fnone, fraise = True, False, (), ()
-    return {"id": cid, "api": api, "pool": pool, "on_content": bool(on_content), "pass_info": bool(pass_info),
+    c = {"id": cid, "api": api, "pool": pool, "on_content": bool(on_content), "pass_info": bool(pass_info),
             "passthrough": bool(passthrough), "inner_order": inner_order,
             "return_info": bool(return_info), "e2w": bool(e2w), "fnone": sorted(fnone), "fraise": sorted(fraise),
             "extra_args": bool(extra_args), "pass_max_workers": bool(pass_max_workers),
@@ -87,11 +97,20 @@ def mk_case(cid, api, nfiles, stream, w, select="all", period=None, on_content=F
                            "w": w, "select": select, "period": period, "rfail": sorted(rfail),
                            "rnone": sorted(rnone), "as_generator": bool(as_generator)}},
             "order": None}
+    if layout:
+        c["layout"] = layout
+    if select == "bundle_n":
+        c["sets"]["p"]["bundle"] = bundle
+    return c
+
+
+def chunks(nfiles, m):
+    return [list(range(i, min(nfiles, i + m))) for i in range(0, nfiles, m)]
 
 
 def random_stream(rng, nfiles):
     """(select, period, stream) for a fileset of nfiles files (positions = time order)."""
-    style = rng.choice(["all", "all", "period", "files", "files_perm", "bundles", "bundles"])
+    style = rng.choice(["all", "all", "period", "files", "files_perm", "bundles", "bundles", "bundle_n"])
     if style == "all" or nfiles < 2:
         return "all", None, [[i] for i in range(nfiles)]
     if style == "period":
@@ -103,6 +122,9 @@ def random_stream(rng, nfiles):
     if style == "files_perm":
         k = rng.randint(1, nfiles)
         return "files", None, [[i] for i in rng.sample(range(nfiles), k)]
+    if style == "bundle_n":
+        m = rng.randint(1, 3)       # find(bundle=m) inside the call; the period slot carries m
+        return "bundle_n", m, chunks(nfiles, m)
     stream, i = [], 0
     while i < nfiles:
         m = rng.randint(1, 3)
@@ -123,7 +145,7 @@ def none_and_inner(rng, api, passthrough, on_content, select, stream, rfail, w):
     if not on_content:
         return rnone, None
     pt = passthrough or api in ("icollect", "collect")
-    if select == "bundles":
+    if select in ("bundles", "bundle_n"):
         for k, b in enumerate(stream):
             failing = any(p in rfail for p in b)
             if rng.random() < 0.3:
@@ -141,12 +163,16 @@ def none_and_inner(rng, api, passthrough, on_content, select, stream, rfail, w):
     return rnone, (inner or None)
 
 
-def random_case(rng, cid, api, nmax, pool="thread", passthrough=False):
-    nfiles = rng.randint(1, nmax)
+def random_case(rng, cid, api, nmax, pool="thread", passthrough=False, layout=None):
+    nfiles = rng.randint(2 if layout else 1, nmax)
     select, period, stream = random_stream(rng, nfiles)
+    bundle = None
+    if select == "bundle_n":
+        bundle, period = period, None
     n = len(stream)
-    w = rng.choice([1, 2, 2, 3, 3, 4, 5, n, n + 2])
-    on_content = rng.random() < 0.6 or passthrough or api in ("icollect", "collect")
+    w = rng.choice([2, 2, 3, 3, 4, n] if layout else [1, 2, 2, 3, 3, 4, 5, n, n + 2])
+    # compressed files: the reads are what matters
+    on_content = rng.random() < 0.6 or passthrough or api in ("icollect", "collect") or bool(layout)
     fail_style = rng.random()
     rfail, fnone, fraise = set(), set(), set()
     files_in_stream = [p for b in stream for p in b]
@@ -163,7 +189,7 @@ def random_case(rng, cid, api, nmax, pool="thread", passthrough=False):
     c = mk_case(cid, api, nfiles, stream, w, select, period, on_content, rng.random() < 0.5, rng.random() < 0.5,
                 rng.random() < 0.6, rfail, fnone, fraise, pool=pool, extra_args=rng.random() < 0.2 and not passthrough,
                 as_generator=(select == "files" and rng.random() < 0.3), pass_max_workers=True,
-                rnone=rnone, passthrough=passthrough, inner_order=inner)
+                rnone=rnone, passthrough=passthrough, inner_order=inner, layout=layout, bundle=bundle)
     c["order"] = drv.random_order(rng, mode_of(api), forced_count(c), w)
     return c
 
@@ -207,6 +233,53 @@ def bundle_pattern_cases(rng, start_id, sizes, apis, pool="thread"):
                         c["order"] = drv.random_order(rng, mode_of(api), forced_count(c), w)
                         cases.append(c)
                         cid += 1
+    return cases
+
+
+def singleton_bundle_cases(rng, start_id, apis, pool="thread"):
+    """Streams with bundles of exactly ONE file (the trailing bundle of find(bundle=2) over 5 files, bundle=1, explicit
+    files=[[f0],[f1,f2]], ...): the function / the caller gets the one-element list [content], not the bare content
+    (bundle_singleton_arg).  `apis`: (api, passthrough) pairs."""
+    shapes = [("bundles", None, 5, [[0, 1], [2, 3], [4]]), ("bundle_n", 2, 5, chunks(5, 2)),
+              ("bundles", None, 3, [[0], [1, 2]]), ("bundles", None, 3, [[0], [1], [2]]),
+              ("bundle_n", 1, 3, chunks(3, 1)), ("bundle_n", 3, 4, chunks(4, 3)),
+              ("bundles", None, 4, [[1], [0, 2, 3]]), ("bundle_n", 4, 1, chunks(1, 4)), ("bundles", None, 1, [[0]])]
+    cases, cid = [], start_id
+    for api, pt in apis:
+        for select, m, nfiles, stream in shapes:
+            for variant in range(2):
+                n = len(stream)
+                w = [2, 3][variant] if n > 1 else 1 + variant
+                e2w = variant == 1
+                rfail = {stream[-1][0]} if (variant == 1 and cid % 3 == 0 and n > 1) else set()
+                c = mk_case(cid, api, nfiles, stream, w, select, on_content=True, e2w=e2w, rfail=rfail,
+                            pass_info=(cid % 2 == 0), return_info=(cid % 3 != 1), pool=pool, passthrough=pt, bundle=m)
+                c["order"] = drv.random_order(rng, mode_of(api), forced_count(c), w, style="latest" if variant else None)
+                cases.append(c)
+                cid += 1
+    return cases
+
+
+def gz_cases(rng, start_id, apis, nmax, wmax, sampled, pool="thread"):
+    """Compressed files with the same base name in different directories (layout "gz"): every feasible completion
+    order for 2..nmax files on 2..wmax workers -- among them all orders in which a later task decompresses, reads and
+    finishes while an earlier one is still inside its reader -- a one-worker run, and `sampled` random cases per api
+    (bundles with forced member orders, unreadable files, periods, files=).  `apis`: (api, passthrough) pairs."""
+    cases, cid = [], start_id
+    for api, pt in apis:
+        for n in range(2, nmax + 1):
+            for w in [1] + list(range(2, wmax + 1)):
+                if w > n + 1 or (w == 1 and n != 3):
+                    continue
+                for order in drv.feasible_orders(mode_of(api), n, w):
+                    c = mk_case(cid, api, n, [[i] for i in range(n)], w, on_content=True, pass_info=(cid % 2 == 0),
+                                return_info=(cid % 3 != 0), pool=pool, passthrough=pt, layout="gz")
+                    c["order"] = order
+                    cases.append(c)
+                    cid += 1
+        for _ in range(sampled):
+            cases.append(random_case(rng, cid, api, 7, pool=pool, passthrough=pt, layout="gz"))
+            cid += 1
     return cases
 
 
@@ -284,7 +357,7 @@ def align_case(rng, cid, nmax):
 # ----------------------------------------------------------------------------- Coq expressions
 
 def is_bundled(case, name="p"):
-    return case["sets"][name].get("select") == "bundles"
+    return case["sets"][name].get("select") in ("bundles", "bundle_n")
 
 
 def task_items(case, name="p"):
@@ -363,9 +436,16 @@ def maplike_expr(case, obs):
     prio = coq_list([zlit(k) for k in case["order"]])
     if is_bundled(case):
         bc = f"bundle_check {coq_bool(case['on_content'])} {coq_bool(case['e2w'])} {btasks_expr(case)}"
+        # what the function of every task was seen to be called with: (0, []) nothing, (1, l) a bare content, (2, l) a list
+        seen = []
+        for k in range(n):
+            got, kind = obs.get("args", {}).get(f"p:{k}"), obs.get("kinds", {}).get(f"p:{k}")
+            seen.append("(0, [])" if got is None else f"({1 if kind == 'bare' else 2}, {coq_list([zlit(x) for x in got])})")
+        codes = f"bundle_arg_codes {btasks_expr(case)} {coq_list(seen)}"
     else:
         bc = "(@nil (option (list Z)), true)"
-    return f"(check_trace {w} {rs} {tr}, sched_z {w} {rs} {prio}, cres_z (collect_model {rs}), {bc})"
+        codes = "(@nil Z)"
+    return f"(check_trace {w} {rs} {tr}, sched_z {w} {rs} {prio}, cres_z (collect_model {rs}), {bc}, {codes})"
 
 
 def align_expr(case):
@@ -376,7 +456,9 @@ def align_expr(case):
 
 def describe(case):
     sp = case["sets"]["p"]
-    return (f"{case['api']}({case.get('pool','thread')}, max_workers={sp['w']}, select={sp.get('select')}, stream={sp['stream']}, "
+    lay = ("compressed files <dir>/yyyy/mm/dd/data.txt.gz (same base name everywhere), " if case.get("layout") == "gz" else "")
+    return (f"{case['api']}({case.get('pool','thread')}, {lay}max_workers={sp['w']}, select={sp.get('select')}"
+            f"{'=' + str(sp.get('bundle')) if sp.get('select') == 'bundle_n' else ''}, stream={sp['stream']}, "
             f"on_content={case['on_content']}, return_info={case['return_info']}, error_to_warning={case['e2w']}, "
             f"unreadable={sp['rfail']}, reader returns None for {sp.get('rnone', [])}, func None for {case['fnone']}, "
             f"func raises for {case['fraise']}, pass-through function={bool(case.get('passthrough'))}, "
@@ -398,7 +480,7 @@ def judge_maplike(ctx, case, obs, val):
         ctx.fail("correspondence", "Coq evaluation of the model failed", case=case, signature="coq-eval")
         return False
     # Coq prints left-nested pairs flat
-    acc, final, mvals, merr, svals, serr, sched, (ccode, clist), (margs, refines) = val
+    acc, final, mvals, merr, svals, serr, sched, (ccode, clist), (margs, refines), codes = val
     n_acc, n_tr, inflight = acc
     opt = lambda v: None if v is None else v[1]        # noqa: E731
     svals, mvals = [opt(v) for v in svals], [opt(v) for v in mvals]
@@ -442,23 +524,32 @@ def judge_maplike(ctx, case, obs, val):
         if not refines:
             ctx.fail("proof", "the bundle model and its abstraction to the pool model differ (bundle_refines_task)", case=case,
                      signature="model-vs-spec")
-        oargs = obs.get("args", {})
+        oargs, okinds = obs.get("args", {}), obs.get("kinds", {})
         for k, m in enumerate(margs):
-            got = oargs.get(f"p:{k}")
-            if m is None:
+            got, kind = oargs.get(f"p:{k}"), okinds.get(f"p:{k}")
+            code = codes[k] if k < len(codes) else None
+            members = sp["stream"][k]
+            # the verdict is Coq's (bundle_arg_codes, observed_arg_agrees_iff); the same comparison in Python guards the encoding
+            py_ok = (got is None) if m is None else (got == m[1] and kind == "list")
+            if (code == 0) != py_ok:
+                ctx.fail("correspondence", f"harness: bundle {k}: Coq's arg_code {code} and the harness's own comparison "
+                         f"({got}, {kind} vs {m}) differ", case=case, signature="harness-arg-code")
+            if code == 3:
                 # a member cannot be read: the function must not be called for this bundle
-                if got is not None:
-                    fail("failing-input", f"{api}: the function of bundle {k} was called with the contents {got} although a "
-                         f"member cannot be read", f"{api}-bundle-args", impl=got)
-                continue
-            want_args = m[1]
-            if got is not None and got != want_args:
+                fail("failing-input", f"{api}: the function of bundle {k} was called with the contents {got} although a "
+                     f"member cannot be read", f"{api}-bundle-args", impl=got)
+            elif code == 2:
+                fail("failing-input", f"{api}: bundle {k} (files {members}, {len(members)} file(s)) handed on the BARE content "
+                     f"of file {got} instead of the list of its members' contents {m[1]}: the property requires the list, one "
+                     f"entry per member, for every bundle size (bundle_singleton_arg / bundle_arg_is_member_list)",
+                     f"{api}-bundle-args", impl=["bare", got], model=m[1])
+            elif code == 1:
                 fail("failing-input", f"{api}: the function of bundle {k} was called with the contents of the files {got}; the "
-                     f"property requires the members' contents in member order {want_args}", f"{api}-bundle-args",
-                     impl=got, model=want_args)
-            elif got is None and obs["err"] is None and api in ("map", "imap") and not case.get("passthrough"):
-                fail("failing-input", f"{api}: the function was never called for bundle {k} (contents {want_args})",
-                     f"{api}-bundle-args", impl=oargs, model=want_args)
+                     f"property requires the members' contents in member order {m[1]}", f"{api}-bundle-args",
+                     impl=got, model=m[1])
+            elif code == 4 and obs["err"] is None and api in ("map", "imap") and not case.get("passthrough"):
+                fail("failing-input", f"{api}: the function was never called for bundle {k} (contents {m[1]})",
+                     f"{api}-bundle-args", impl=oargs, model=m[1])
         # the forced completion order of the member reads inside a bundle was followed
         for ks, order in (case.get("inner_order") or {}).items():
             b = sp["stream"][int(ks)]
@@ -466,6 +557,22 @@ def judge_maplike(ctx, case, obs, val):
             if len(seen) == len(b) and seen != [b[i] for i in order] and not bad and not obs["stuck"]:
                 fail("correspondence", f"{api}: the members of bundle {ks} were read in order {seen}, forced {[b[i] for i in order]}",
                      f"{api}-inner-order-not-forced", impl=seen)
+    # --- a task on a single file gets the bare content of that file, not a list
+    if not is_bundled(case) and case["on_content"]:
+        wrong = {k: v for k, v in obs.get("kinds", {}).items() if v != "bare"}
+        if wrong:
+            fail("failing-input", f"{api}: tasks on a single file were handed a {sorted(set(wrong.values()))} instead of the "
+                 f"file's content: {wrong}", f"{api}-content-type", impl=wrong)
+    # --- every content is the content of the task's OWN file(s) (task_results_independent: a task's result depends on
+    #     its own file only, whatever the other tasks do at the same time)
+    rnone_p = set(sp.get("rnone", []))
+    for k, positions in obs.get("own", []):
+        own = [p for p in sp["stream"][k] if p not in rnone_p] if isinstance(k, int) and 0 <= k < n else None
+        if positions != own:
+            fail("failing-input", f"{api}: task {k} (files {sp['stream'][k] if own is not None else '?'}) was paired with the "
+                 f"content of the files {positions}: every task must get the content of its own file(s) "
+                 f"(task_results_independent)", f"{api}-own-content", impl=[k, positions], model=own)
+            break
     # --- exactly once
     delivered = len(obs["out"]) if api in ("imap", "icollect") else (n if obs["err"] is None else 0)
     over = {k: v for k, v in obs["func_calls"].items() if v > 1}
@@ -675,6 +782,11 @@ def run(ctx):
             c["id"] = len(cases) + i
     cases += bun
     n_bun = len(cases) - n_exh - n_sub
+    four = [("imap", False), ("map", False), ("icollect", False), ("collect", False)]
+    cases += singleton_bundle_cases(rng, len(cases), four)
+    n_sing = len(cases) - n_exh - n_sub - n_bun
+    cases += gz_cases(rng, len(cases), four, ctx.n(3, 4), ctx.n(3, 4), ctx.n(8, 60))
+    n_gz = len(cases) - n_exh - n_sub - n_bun - n_sing
     for api, k in (("imap", ctx.n(60, 500)), ("map", ctx.n(30, 250)), ("icollect", ctx.n(30, 250)),
                    ("collect", ctx.n(30, 250))):
         for _ in range(k):
@@ -686,7 +798,7 @@ def run(ctx):
                 c = mk_case(len(cases), api, nf, [], 2, select="files", on_content=oc, pass_info=oc)
                 c["order"] = []
                 cases.append(c)
-    n_rand = len(cases) - n_exh - n_sub - n_bun
+    n_rand = len(cases) - n_exh - n_sub - n_bun - n_sing - n_gz
     align_cases = [align_case(rng, len(cases) + i, ctx.n(6, 8)) for i in range(ctx.n(80, 600))]
     proc_cases = []
     if ctx.thorough:
@@ -721,7 +833,17 @@ def run(ctx):
             for _ in range(60):
                 proc_cases.append(random_case(rng, pid, api, 7, pool="process", passthrough=pt))
                 pid += 1
-    ctx.log(f"cases: {n_exh} exhaustive-order, {n_sub} failing-subset, {n_bun} bundle-pattern, {n_rand} sampled, {len(align_cases)} align, "
+        # bundles of one file and compressed same-named files on process pools (the pass-through function through
+        # imap(worker_type="process") stands for collect / icollect, which pin threads)
+        on_proc = [("imap", False), ("map", False), ("imap", True), ("icollect", False)]
+        sing = singleton_bundle_cases(rng, pid, on_proc, pool="process")
+        proc_cases += sing
+        pid += len(sing)
+        gzp = gz_cases(rng, pid, on_proc, 3, 3, 15, pool="process")
+        proc_cases += gzp
+        pid += len(gzp)
+    ctx.log(f"cases: {n_exh} exhaustive-order, {n_sub} failing-subset, {n_bun} bundle-pattern, {n_sing} one-file-bundle, "
+            f"{n_gz} compressed-same-name, {n_rand} sampled, {len(align_cases)} align, "
             f"{len(proc_cases)} process-pool")
     obs = run_thread_cases_parallel(ctx, cases)
     ctx.log(f"ran {len(cases)} thread-pool cases")
@@ -741,7 +863,11 @@ def run(ctx):
     allc = cases + proc_cases
     ctx.cov["input_distribution"] = {
         "exhaustive_order_cases": n_exh, "failing_subset_cases": n_sub, "sampled_cases": n_rand,
-        "bundle_pattern_cases": n_bun, "align_cases": len(align_cases), "process_pool_cases": len(proc_cases),
+        "bundle_pattern_cases": n_bun, "one_file_bundle_cases": n_sing, "compressed_same_basename_cases": n_gz,
+        "bundles_of_one_file": sum(1 for c in allc if is_bundled(c) for b in c["sets"]["p"]["stream"] if len(b) == 1),
+        "compressed_cases_with_overlap": sum(1 for c in allc if c.get("layout") == "gz" and c["order"] != sorted(c["order"])),
+        "compressed_on_process_pools": sum(1 for c in proc_cases if c.get("layout") == "gz"),
+        "align_cases": len(align_cases), "process_pool_cases": len(proc_cases),
         "process_pool_by_api": {a: sum(1 for c in proc_cases if c["api"] == a and not c.get("passthrough"))
                                 for a in ("imap", "map", "icollect")},
         "process_pool_passthrough_imap": sum(1 for c in proc_cases if c.get("passthrough")),
@@ -751,7 +877,7 @@ def run(ctx):
         "bundled_with_forced_member_order": sum(1 for c in allc if c.get("inner_order")),
         "single_files_with_none_content": sum(1 for c in allc if not is_bundled(c) and c["sets"]["p"].get("rnone")),
         "by_api": {a: sum(1 for c in allc if c["api"] == a) for a in ("imap", "map", "icollect", "collect")},
-        "by_selection": {s: sum(1 for c in allc if c["sets"]["p"]["select"] == s) for s in ("all", "period", "files", "bundles")},
+        "by_selection": {s: sum(1 for c in allc if c["sets"]["p"]["select"] == s) for s in ("all", "period", "files", "bundles", "bundle_n")},
         "with_exception": sum(1 for c in allc if first_error(c) is not None),
         "with_read_warning": sum(1 for c in allc if c["e2w"] and c["on_content"] and c["sets"]["p"]["rfail"]),
         "with_none_results": sum(1 for c in allc if c["fnone"]),
@@ -767,6 +893,8 @@ def run(ctx):
         "generated",
         "icollect()/collect() pin worker_type='thread' in the code: on process pools the pass-through function is exercised "
         "through imap(worker_type='process')",
+        "compressed files: the overlap of two reads is forced by gates INSIDE the reader (after FileSet.read() has "
+        "decompressed the file): interference that needs two decompressions to interleave byte by byte is not forced",
         "collect() on a selection whose contents are all None raises ValueError in the code as it is; the property does "
         "not fix that outcome and such cases are not judged",
     ]
